@@ -423,6 +423,9 @@ func (w *World) exchangeNoNotify(entity Entity, add []ID, rem []ID, relation ID,
 	if !w.entityPool.Alive(entity) {
 		panic("can't exchange components on a dead entity")
 	}
+	if hasRelation && !target.IsZero() && !w.entityPool.Alive(target) {
+		panic("can't make a dead entity a relation target")
+	}
 
 	if len(add) == 0 && len(rem) == 0 {
 		if hasRelation {
@@ -578,6 +581,10 @@ func (w *World) exchangeBatchQuery(filter Filter, add []ID, rem []ID, relation I
 
 func (w *World) exchangeBatchNoNotify(filter Filter, add []ID, rem []ID, relation ID, hasRelation bool, target Entity, batches *batchArchetypes) int {
 	w.checkLocked()
+
+	if hasRelation && !target.IsZero() && !w.entityPool.Alive(target) {
+		panic("can't make a dead entity a relation target")
+	}
 
 	if len(add) == 0 && len(rem) == 0 {
 		if hasRelation {
